@@ -1286,17 +1286,20 @@ impl StateMachine for FileStateMachine {
                     }
                 }
             }
+            // The applied index moves together with the data, under the same write lock:
+            // scan_prefix reads both under the read lock and must never pair the new data with
+            // the old revision.
+            if let Some(log_id) = highest_log_id {
+                debug!("State machine - updated last_applied: {:?}", log_id);
+                self.update_last_applied(log_id);
+            }
         } // Lock released immediately - no awaits inside!
         #[cfg(feature = "__verif")]
         d_engine_core::verif_hooks::crash_point("sm.apply.after_memory_update");
 
-        // PHASE 4: Update last applied index and conditionally checkpoint.
+        // PHASE 4: Conditionally checkpoint.
         // WAL (written in PHASE 2) is the primary crash-safety path.
         // Checkpoint snapshots full data periodically to bound WAL replay time on recovery.
-        if let Some(log_id) = highest_log_id {
-            debug!("State machine - updated last_applied: {:?}", log_id);
-            self.update_last_applied(log_id);
-        }
         #[cfg(feature = "__verif")]
         d_engine_core::verif_hooks::crash_point("sm.apply.after_last_applied");
 
